@@ -10,4 +10,5 @@ var All = map[string]func(*Ctx){
 	"C06": C06,
 	"C07": C07,
 	"C08": C08,
+	"C09": C09,
 }
